@@ -105,6 +105,12 @@ def step (kind : Kind) (s : SState) (op : Op) : Option (SState × Out) :=
     | some e => some (s, .num (shown kind e))
     | none => none
   | .equal t u => some (s, .flag (equal kind (s.get t) (s.get u)))
+  | .notEqual t u => some (s, .flag (!equal kind (s.get t) (s.get u)))
+  | .iterBack t => some (s, .entries (s.get t).reverse)
+  | .entryAt t pos =>
+    match (s.get t)[pos]? with
+    | some e => some (s, .entries [e])
+    | none => none
 
 def run (kind : Kind) : SState → List Op → Option (SState × List Out)
   | s, [] => some (s, [])
